@@ -2,7 +2,7 @@
 the built-in components must treat them by their *flags*, not by their type.  Importing this module registers the
 two types in this process (only the property modules that call `enable` import it).
 
-Cleats  - a second holdable type besides Key (the library's own tutorial defines such an object)
+Cleats  - a second holdable type besides Key (the library's own tutorial defines such an object); falsy (len 0)
 Curtain - like Box, carries data outside state_index (its opacity): equal by ==, different in behaviour
 """
 from . import boot  # noqa: F401
@@ -26,6 +26,10 @@ class Cleats(GridObject):
 
     def __repr__(self):
         return 'Cleats()'
+
+    def __len__(self):
+        # a legal user object may be *falsy* (an empty container): nothing in the library may decide by truthiness
+        return 0
 
 
 class Curtain(GridObject):
